@@ -187,7 +187,57 @@ class C17(Property):
         out.sample = dict(cold=spec["cold"], first_pairs=[(NAMES[x], NAMES[y]) for x, y in spec["pairs"][:5]], n_pairs=len(spec["pairs"]))
         return out
 
+    @staticmethod
+    def _through_trigger(x, a, b):
+        """generator (units a, value x[k] at hour 2k) -> TimeTrigger(out units b) -> collecting sink; returns the
+        quantity array received for hours 0, 2, 4 (connect-phase value first)"""
+        import logging
+        from datetime import datetime, timedelta
+
+        t0 = datetime(2000, 1, 1)
+        vals = [float(v) for v in x[:3]]
+        gen = fm.components.CallbackGenerator({"Out": (lambda t: vals[min(2, int((t - t0).total_seconds() // 7200))], fm.Info(time=None, grid=fm.NoGrid(), units=a))}, t0, timedelta(hours=2))
+        trig = fm.components.TimeTrigger(start=t0, step=timedelta(hours=2), in_info=fm.Info(time=None, grid=fm.NoGrid(), units=None),
+                                         out_info=fm.Info(time=None, grid=fm.NoGrid(), units=b))
+        got = []
+
+        class Sink(fm.TimeComponent):
+            def __init__(self):
+                super().__init__()
+                self._time = t0
+
+            def _next_time(self):
+                return self.time + timedelta(hours=2)
+
+            def _initialize(self):
+                self.inputs.add(name="In", time=self.time, grid=fm.NoGrid(), units=None)
+                self.create_connector(pull_data=["In"])
+
+            def _connect(self, st):
+                self.try_connect(st)
+                if self.status == fm.ComponentStatus.CONNECTED:
+                    got.append(self.connector.in_data["In"])
+
+            def _validate(self):
+                pass
+
+            def _update(self):
+                self._time = self._next_time()
+                got.append(self.inputs["In"].pull_data(self.time))
+
+            def _finalize(self):
+                pass
+
+        sink = Sink()
+        comp = fm.Composition([sink, trig, gen], print_log=False, log_level=logging.CRITICAL + 10)
+        gen.outputs["Out"] >> trig.inputs["In"]
+        trig.outputs["Out"] >> sink.inputs["In"]
+        comp.run(start_time=t0, end_time=t0 + timedelta(hours=4))
+        units = got[0].units
+        return fm.UNITS.Quantity(np.array([float(np.asarray(g.to(units).magnitude).ravel()[0]) if g.units != units else float(np.asarray(g.magnitude).ravel()[0]) for g in got[:3]]), units)
+
     def _conversion(self, out, rnd, a, b):
+        ref_equiv = None
         x = np.array([rnd.uniform(-50, 50) for _ in range(4)])
         if rnd.random() < 0.25:
             x = np.array([rnd.randint(-2500, 2500) for _ in range(4)])  # integer payload: the converted result is not integral in general
@@ -195,7 +245,7 @@ class C17(Property):
         compat = o_compatible(a, b)
         equiv, _ = o_equivalent(a, b)
         exp = o_convert(x, a, b) if compat else None
-        how = rnd.choice(["to_units", "prepare", "link", "link", "link_v2g"])
+        how = rnd.choice(["to_units", "prepare", "link", "link", "link_v2g", "to_units", "prepare", "link", "trigger"])
         out.count("conversion_" + how)
         try:
             if how == "to_units":
@@ -207,6 +257,10 @@ class C17(Property):
                 mk = np.zeros(4, bool) if rnd.random() < 0.4 else fm.Mask.FLEX
                 info = fm.Info(time=None, grid=fm.NoGrid(data_shape=(4,)), units=b, mask=mk)
                 y = dt.prepare(fm.UNITS.Quantity(x.copy(), a), info)[0]
+            elif how == "trigger":
+                # a shipped component that republishes what it pulled on an output declared in other units (run phase included)
+                y = self._through_trigger(x, a, b)
+                x, exp = x[:3].astype(float), (exp[:3] if exp is not None else None)
             elif how == "link_v2g":
                 # the link crosses a shipped adapter that rewrites the metadata (one value spread over a grid)
                 from datetime import datetime
@@ -232,7 +286,13 @@ class C17(Property):
                 o >> i
                 i.ping()
                 i.exchange_info()
-                o.push_data(fm.UNITS.Quantity(o_convert(x, a, pub_units), pub_units) if compat and rnd.random() < 0.6 else x.copy(), t0)
+                if compat and rnd.random() < 0.6:
+                    vals = x.astype(float) if pub_units == a else np.asarray(o_convert(x, a, pub_units), dtype=float)
+                    o.push_data(fm.UNITS.Quantity(vals.copy(), pub_units), t0)
+                    if pub_units == b:
+                        ref_equiv = vals  # published in the consumer's own units: those numbers must arrive unchanged
+                else:
+                    o.push_data(x.copy(), t0)
                 y = i.pull_data(t0)[0]
         except (fm.FinamDataError, fm.FinamMetaDataError) as e:
             if compat:
@@ -257,7 +317,8 @@ class C17(Property):
         got = np.asarray(np.ma.getdata(y.magnitude), dtype=float)
         scale = max(1.0, float(np.max(np.abs(exp))))
         if equiv:
-            ok = np.array_equal(got, x) or np.allclose(got, x, rtol=1e-12, atol=0)
+            ref = x if ref_equiv is None else ref_equiv
+            ok = np.array_equal(got, ref) or np.allclose(got, ref, rtol=1e-12, atol=0)
             out.count("equivalent_relabels")
         else:
             ok = np.allclose(got, exp, rtol=1e-9, atol=1e-9 * scale)
@@ -266,7 +327,7 @@ class C17(Property):
             out.viol("wrong_conversion", f"{how}: {x.tolist()} {a!r} -> {b!r} gave {got.tolist()}, dimensional analysis {exp.tolist()}", a=a, b=b)
 
     def coverage_gaps(self, counters, tier):
-        need = ["integer_payloads", "compatible_queries", "equivalent_queries", "conversion_link", "conversion_link_v2g", "conversion_prepare", "conversion_to_units",
+        need = ["integer_payloads", "compatible_queries", "equivalent_queries", "conversion_link", "conversion_link_v2g", "conversion_trigger", "conversion_prepare", "conversion_to_units",
                 "incompatible_refused", "equivalent_relabels", "true_conversions"]
         return [f"{k} never observed" for k in need if not counters.get(k)]
 
